@@ -122,6 +122,24 @@ for kind in ("with-lock", "acquire"):
     for nest in range(3):
         run_c_blocked(kind, nest)
 
+# a FINISHED thread yields no frames - also when its ident has meanwhile been recycled to the very thread that asks
+def finished_then_recycled():
+    a = threading.Thread(target=lambda: None); a.start(); a.join()
+    out = {}
+    for _ in range(50):
+        def ask():
+            if threading.get_ident() == a.ident:
+                out["st"] = stackscope.extract(a)
+        b = threading.Thread(target=ask); b.start(); b.join()
+        if "st" in out:
+            break
+    return out.get("st")
+st_r = finished_then_recycled()
+leg.case(("finished-thread-ident-recycled",), st_r is not None)
+if st_r is not None and (st_r.frames or st_r.error is not None):
+    leg.violation(("finished-thread-ident-recycled",), f"a finished thread whose ident was recycled to the asking thread: frames "
+                                                       f"{[f.funcname for f in st_r.frames]}, error {st_r.error!r} (expected none)")
+
 # racing thread
 stop = False
 def worker():
